@@ -714,7 +714,7 @@ C03Case(P, base, pkgDiff) ==
 MockKinds == {"string", "int32", "int64", "uint32", "uint64", "sint32", "sint64", "fixed32", "fixed64", "sfixed32", "sfixed64",
               "bool", "float", "double", "enum", "bytes", "ts", "msg"}
 MockCards == {"one", "opt", "rep", "map", "oneof", "oneof2"}
-ExSets == {"none", "parsable", "mixed", "unparsable", "awkward", "range"}
+ExSets == {"none", "parsable", "mixed", "unparsable", "awkward", "range", "padded"}
 IntKinds == {"int32", "int64", "uint32", "uint64", "sint32", "sint64", "fixed32", "fixed64", "sfixed32", "sfixed64"}
 ExamplesFor(k, ex) ==
   IF ex = "none" \/ k \in {"bytes", "ts", "msg"} THEN <<>> ELSE
@@ -727,6 +727,8 @@ ExamplesFor(k, ex) ==
                  [] k \in {"uint64", "fixed64"} -> <<"-5", "18446744073709551615">> [] k = "float" -> <<"1e300", "0.5">> [] OTHER -> good
   IN CASE ex = "parsable" -> good [] ex = "mixed" -> good \o bad [] ex = "unparsable" -> (IF k = "string" THEN good ELSE bad)
        [] ex = "awkward" -> (IF k = "string" THEN awkward ELSE good) [] ex = "range" -> range
+       \* padded: decimal numbers written with leading zeros, as months and codes are ("parsed to the field's type": 10 and 9)
+       [] ex = "padded" -> (IF k \in IntKinds THEN <<"010", "09">> ELSE good)
 MockField(P, k, c, ex) ==
   LET kind == CASE k = "ts" -> "message" [] k = "msg" -> "message" [] OTHER -> k
       ref == CASE k = "ts" -> TS [] k = "msg" -> FN(P, "Child") [] k = "enum" -> FN(P, "P") [] OTHER -> ""
